@@ -198,12 +198,20 @@ def run_child(spec):
                 return p.returncode, time.time() - t0
             logtxt = open(log, errors="replace").read()
             m = re.search(r"^(panic: .*|fatal error: .*|SIGSEGV: .*|SIGBUS: .*)$", logtxt, re.M)
-        if m and not has_ebu_frame(crash_stack(logtxt, m.group(1)), env.get("VERIF_REPO", "/repo")) and "verif/harness" not in crash_stack(logtxt, m.group(1)).split("\n\ngoroutine ")[0]:
-            shutil.copy(log, log + ".first")
+        attempt = 1
+        while attempt < 4 and m and not has_ebu_frame(crash_stack(logtxt, m.group(1)), env.get("VERIF_REPO", "/repo")) and "verif/harness" not in crash_stack(logtxt, m.group(1)).split("\n\ngoroutine ")[0]:
+            # (seen three times in all, always in the C09 concurrent part under heavy machine load: SIGSEGV at
+            # one and the same PC inside runtime.startTheWorld, called from runtime.GOMAXPROCS - go1.25.1)
+            shutil.copy(log, log + (".first" if attempt == 1 else ".attempt%d" % attempt))
+            attempt += 1
             with open(log, "w") as f:
-                f.write("(second attempt: the first one died inside the Go runtime, see %s.first)\n" % os.path.basename(log))
+                f.write("(attempt %d: the one before died inside the Go runtime, see the copies of this log next to it)\n" % attempt)
                 f.flush()
                 p = subprocess.run(cmd, cwd=os.path.dirname(log), env=env, stdout=f, stderr=subprocess.STDOUT)
+            if p.returncode in (0, 124, 137) or has_complete_summary(env.get("VERIF_OUT", "")):
+                break
+            logtxt = open(log, errors="replace").read()
+            m = re.search(r"^(panic: .*|fatal error: .*|SIGSEGV: .*|SIGBUS: .*)$", logtxt, re.M)
     return p.returncode, time.time() - t0
 
 
